@@ -4,7 +4,11 @@ Domain : programs from vf/co1.py (1-3 flows + 0-2 subflows; user/bot/set/if-else
          non-competing intents, counter-bounded loops, definitely-assigned int variables) x histories built by
          co-simulation with up to 12 user steps: at each step the intent the reference interpreter waits for (follow),
          the first intent of another top-level flow (leave/start) or an unknown intent (leave), as chosen by the case;
-         `execute` actions return generated ints.
+         `execute` actions return generated ints.  Any user step may also carry a `cut`: its turn leaves the flow on an
+         ACTIONABLE step - the n-th bot/execute step of the turn, or the n-th one inside a called subflow - by an
+         unexpected user intent (unknown, or one of a later step), an unexpected bot intent, the failure of the started
+         action (InternalSystemActionFinished status=failed) or another flow's first intent, instead of feeding the
+         decided step back.  A later `follow` then comes back to the left flow: it starts again from its first statement.
 Oracle : vf/co1.py's reference interpreter (recursive generators over the AST - no jump offsets).
          leg 1: after every batch of events the runtime would append, flows.compute_next_steps(history, flow_configs)
                 must return exactly [ContextUpdate(sets since the last event)]? + [BotIntent | StartInternalSystemAction]?
@@ -15,9 +19,15 @@ Oracle : vf/co1.py's reference interpreter (recursive generators over the AST - 
                 parameter values the interpreter computed.
          purity: a second generated history is run on the same flow_configs / runtime, then every prefix of the first
                 history is evaluated again and must give the identical canonical steps.
-Leave  : (DESIGN 4/C14 "S") a left flow is only asserted again once the flow that was entered instead has run to its
-         end while being followed and the history re-enters the old flow at the intent it waits for.  Situations in
-         which two top-level flows are active side by side (new flow starts with a wait) end the history.
+Leave  : (DESIGN 4/C14 "S") a flow left while it WAITS is only asserted again once the flow that was entered instead
+         has run to its end while being followed and the history re-enters the old flow at the intent it waits for.
+         Situations in which two top-level flows are active side by side (new flow starts with a wait) end the history.
+         A flow left on a bot/execute step (its own or one of a subflow it called) does not match the conversation any
+         more: nothing may be decided for the leaving event (unless that event starts another flow), and when its first
+         intent arrives in a later event the history matches the flow up to its first statement again, so the next step
+         is the flow's first statement (runtime: the instance and its callers are aborted; flows are singletons only
+         while an instance lives).  Not generated: the left flow's own first intent as the leaving event, and leaving on
+         an action while earlier left flows still wait (their fate is not stated).
 """
 import asyncio
 
@@ -36,10 +46,18 @@ RULE = (
     "[rendered with or without `else if`], while with a private counter and optional extra condition, do subflow, "
     "[$v =] execute act(p=$v|const)), nesting <= 3, blocks of 1-5 statements, intents of different flows disjoint; "
     "history = up to 12 user steps chosen by the case among follow / first intent of another flow / unknown intent, "
-    "every bot intent and action result (generated ints) fed back as the runtime does; a second such history on the "
-    "same flow_configs is used for the purity re-evaluation. Plus a fixed core of hand-written programs with all-follow "
-    "histories. Non-trivial = the followed history passes through >= 1 `if` decision and >= 1 `while` iteration, or "
-    "returns from a subflow (measured from the interpreter trace); distinct by hash of the whole case."
+    "every bot intent and action result (generated ints) fed back as the runtime does; about 1 user step in 5 also "
+    "carries a cut = (n, any|sub, how, j): on the n-th bot/execute step decided in that turn (counting all of them, or "
+    "only those inside a called subflow) the history leaves the flow instead of feeding the step back - by an unexpected "
+    "user intent (unknown or belonging to a later step of some flow), an unexpected bot intent (unknown or another one of "
+    "the pool), the failure of the started action (status=failed) or the first intent of another flow - after which "
+    "nothing (or the other flow's first statement) must be decided, and a later follow choice re-triggers the left flow, "
+    "which must start again from its first statement and is then followed as usual; a second such history on the "
+    "same flow_configs is used for the purity re-evaluation. Plus a fixed core of hand-written programs (one with two "
+    "levels of subflows containing bot/user/execute steps) with all-follow and leave histories and an enumerated family "
+    "core program x turn 0-2 x cut position x way of leaving, each followed by coming back to the flow. Non-trivial = "
+    "the followed history passes through >= 1 `if` decision and >= 1 `while` iteration, or returns from a subflow, or "
+    "starts a flow again that was left inside a subflow (measured from the interpreter trace); distinct by hash of the whole case."
 )
 ASSUMPTIONS = [
     "intents of different top-level flows are disjoint; when-branches, extension flows, priorities, `stop`, labels/goto are outside the subset",
@@ -48,6 +66,13 @@ ASSUMPTIONS = [
     "flow is asserted again only after the new flow has completed while being followed (DESIGN S note)",
     "the history ends where two top-level flows would be active side by side (a flow entered while another one waits and "
     "whose first statement is itself a wait)",
+    "a flow left on a bot/execute step (own or of a called subflow, any depth) is over: the leaving event decides nothing "
+    "unless it is another flow's first intent, and the flow's first intent in a LATER event starts it again from its first "
+    "statement; the left flow's own first intent is never used as the leaving event (the runtime does not restart a flow "
+    "within the event that aborts it - not stated either way) and a cut is ignored while earlier left flows still wait "
+    "(label cut-ignored:left-flows-waiting); the turn that is cut is not compared with generate_events (which would go on), "
+    "leg 2 resumes with the leaving event; a failed action is the bare InternalSystemActionFinished(status=failed) event "
+    "(the runtime's own failure path adds hide_prev_turn, which needs utterance events these intent-level histories do not have)",
     "leg 2 feeds generate_events the history built by leg 1 (same events, own uids); turns of more than 90 events skip leg 2 "
     "(generate_events gives up after 100 events per turn) and histories are cut once they exceed 160 events (quadratic replay cost)",
     "open findings C14-F13 (flow that ends inside its starting event is not completed) and C14-F14 (nested subflow call whose "
@@ -60,6 +85,7 @@ ASSUMPTIONS = [
 # set/if/while after the first `user` line on the executed path) is left ACTIVE with a negative head instead of
 # COMPLETED; it swallows the next matching intent and can re-run its `set`s later.  While the finding is open the
 # generated histories stop right after such a step (counted as excluded); set to False once it is fixed.
+UNEXPECTED_BOT = "zz unexpected"  # a bot intent that no generated program contains
 MAX_EVENTS = 160  # every evaluation replays the whole history: cost is quadratic, so long histories are cut
 F13_OPEN = False
 # Finding C14-F14 (open, reported): flow -> `do s1` -> `do s0` where s1 reaches the inner call while it is being
@@ -157,10 +183,11 @@ def canon(events):
 
 
 class Active:
-    def __init__(self, name, gen):
+    def __init__(self, name, gen, trace_start=0):
         self.name = name
         self.gen = gen
         self.wait = None  # the user intent the flow waits for
+        self.trace_start = trace_start  # length of the interpreter trace when the flow was started
 
 
 class Sim:
@@ -187,6 +214,12 @@ class Sim:
         self.done = False
         self.firsts = co1.first_intents(program)
         self.exec_calls = []  # [action, evaluated params] of the current user step (leg 2 compares)
+        self.pending_cut = None  # the `cut` of the current user step: where and how the history leaves on an actionable step
+        self.turn_actionable = {"any": 0, "sub": 0}  # bot/execute requests seen in this turn (all / inside a subflow)
+        self.aborted = None  # (flow name, subflow depth) of the flow that was last left on an actionable step
+        self.restarts = 0  # flows started again (and asserted) after having been left inside a subflow
+        self.cut_req = None
+        self.non_first = sorted(co1.all_intents(program) - set(self.firsts.values()))
 
     # -- real side ---------------------------------------------------------------------------
     def real(self):
@@ -230,13 +263,16 @@ class Sim:
                 self.cut = self.done = True
         return sets, req
 
-    def resolve(self, choice):
+    def resolve(self, choice, exclude=None):
         """Turns a data choice into (kind, intent, flow name)."""
         kind, i = choice["k"], choice["i"]
         if kind == "follow" and self.cur is None:
             kind = "start"
+            if self.aborted is not None:
+                # the user comes back to the flow that was left on an actionable step: it starts again
+                return "start", self.firsts[self.aborted[0]], self.aborted[0]
         if kind == "start":
-            busy = {a.name for a in self.stack} | ({self.cur.name} if self.cur else set())
+            busy = {a.name for a in self.stack} | ({self.cur.name} if self.cur else set()) | ({exclude} if exclude else set())
             free = [f["name"] for f in self.p["flows"] if f["name"] not in busy]
             if not free:
                 kind = "unknown"
@@ -247,13 +283,93 @@ class Sim:
             return "follow", self.cur.wait, self.cur.name
         return "unknown", co1.UNKNOWN_INTENT, None
 
-    def user_step(self, choice):
+    def depth(self, act):
+        """Number of subflow calls the interpreter of `act` is currently inside of (exact while no other flow is left waiting)."""
+        d = 0
+        for t in self.trace[act.trace_start :]:
+            d += 1 if t == "do-enter" else -1 if t == "do-return" else 0
+        return max(d, 0)
+
+    def cut_here(self, act):
+        """Does the case want the history to leave the flow on the actionable step that was just decided?"""
+        cut, depth = self.pending_cut, self.depth(act)
+        n = self.turn_actionable["sub" if cut and cut["where"] == "sub" else "any"]
+        self.turn_actionable["any"] += 1
+        if depth:
+            self.turn_actionable["sub"] += 1
+        if not cut or n != cut["at"] or (cut["where"] == "sub" and not depth):
+            return False
+        if self.stack:
+            # what becomes of flows that were left earlier and still wait is not asserted (S note): no such history
+            self.labels.add("cut-ignored:left-flows-waiting")
+            return False
+        self.pending_cut = None
+        return True
+
+    def leave_on_action(self, act, req, cut):
+        """The history leaves flow `act` while its head (or the head of a subflow it called) is on the bot / execute step
+        `req`: an unexpected user or bot intent arrives instead of the decided bot intent, or the started action fails.
+        No flow matches the conversation any more: nothing may be decided; the flow can be started again later."""
         m = _repo()
+        depth = self.depth(act)
+        how, j = cut["how"], cut["j"]
+        if how == "failed" and req[0] != "exec":
+            how = "user"
+        others = [f["name"] for f in self.p["flows"] if f["name"] != act.name]
+        if how == "start" and not others:
+            how = "user"
+        self.cur = None  # the stack is empty (cut_here)
+        self.aborted = (act.name, depth)
+        self.labels.add(f"leave-at-{'bot' if req[0] == 'bot' else 'execute'}-step:{how}")
+        self.labels.add("leave-at-action:inside-subflow" if depth else "leave-at-action:own-step")
+        if how == "start":
+            # another flow's first intent: that flow starts (the left flow itself is not a candidate within this event)
+            self.user_step({"k": "start", "i": j}, exclude=act.name)
+            return
+        before = len(self.history)
+        if how == "user":
+            pool = [co1.UNKNOWN_INTENT] + self.non_first
+            event = m["new_event"]("UserIntent", intent=pool[j % len(pool)])
+            self.log.append(f"user {event['intent']!r} (instead of {_short_req(req)})")
+        elif how == "bot":
+            pool = [UNEXPECTED_BOT] + [b for b in co1.BOTS if req[0] != "bot" or b != req[1]]
+            event = m["new_event"]("BotIntent", intent=pool[j % len(pool)])
+            self.log.append(f"bot {event['intent']!r} (instead of {_short_req(req)})")
+        else:
+            start = self.history[-1]
+            event = m["new_event"](
+                "InternalSystemActionFinished",
+                action_uid=start["action_uid"],
+                action_name=start["action_name"],
+                action_params=start["action_params"],
+                action_result_key=start["action_result_key"],
+                status="failed",
+                is_success=False,
+                failure_reason="failed",
+                return_value=None,
+                events=[],
+                is_system_action=False,
+            )
+            self.log.append(f"{req[1]}{req[2]} FAILED")
+        self.history.append(event)
+        steps, c = self.real()
+        if c:
+            self.fail("step-after-leaving-on-action", f"flow {act.name} was left on {_short_req(req)} and no flow matches the history, but the runtime decided {c}")
+        self.log.append("-> (nothing)")
+        if self.rt is not None and not self.cut:
+            self.exec_calls = []
+            self.leg2(before, event, [])
+
+    def user_step(self, choice, exclude=None):
+        m = _repo()
+        self.pending_cut = choice.get("cut")
+        self.turn_actionable = {"any": 0, "sub": 0}
+        self.cut_req = None
         if len(self.history) > MAX_EVENTS:
             self.labels.add("stop:history-longer-than-%d-events" % MAX_EVENTS)
             self.done = True
             return
-        kind, intent, name = self.resolve(choice)
+        kind, intent, name = self.resolve(choice, exclude)
         if kind == "follow" and any(a.wait == intent for a in self.stack):
             # a left flow waits for the same intent (both are inside the same subflow): competing intents, out of scope
             self.labels.add("stop:left-flow-waits-for-same-intent")
@@ -277,10 +393,14 @@ class Sim:
                     self.labels.add("follow-inside-entered-flow")
                 sets, req = self.pump(act, None)
             else:
-                act = Active(name, co1.run_flow(self.p, name, self.ctx, self.trace))
+                act = Active(name, co1.run_flow(self.p, name, self.ctx, self.trace), len(self.trace))
                 sets, req = self.pump(act, None, first=True)
                 if self.cur is not None:
                     self.labels.add("leave:other-flow")
+                if self.aborted is not None and self.aborted[0] == name:
+                    self.labels.add("restart-after-leave-on-action:" + ("inside-subflow" if self.aborted[1] else "own-step"))
+                    self.restarts += 1 if self.aborted[1] else 0
+                    self.aborted = None
                 if req is not None and req[0] in ("bot", "exec"):
                     if self.cur is not None:
                         self.stack.append(self.cur)
@@ -301,6 +421,11 @@ class Sim:
                     self.labels.add("stop:two-flows-active")
                     self.done = True
             self.drive(act, sets, req)
+            if self.cut_req is not None:
+                # the runtime would go on with this turn; the history does not: leg 2 starts again at the leaving event
+                self.labels.add("leg2-skipped:turn-left-on-action")
+                self.leave_on_action(act, self.cut_req, choice["cut"])
+                return
         if self.rt is not None and not self.cut:
             self.leg2(before, event, self.results_used(n_exec0))
 
@@ -321,6 +446,11 @@ class Sim:
             if c != expected:
                 self.fail("next-step", f"flow {act.name}: interpreter expects {expected}, runtime decided {c}")
             self.log.append("-> " + (" ".join(map(_short, c)) or "(nothing)"))
+            if req is not None and req[0] in ("bot", "exec") and self.cut_here(act):
+                # the decided bot intent is not fed back (a decided action start is: the runtime does not advance on it)
+                self.history.extend(steps if req[0] == "exec" else steps[:-1])
+                self.cut_req = req
+                return
             self.history.extend(steps)
             if req is None or req[0] == "user":
                 if steps:
@@ -389,6 +519,10 @@ class Sim:
         return got
 
 
+def _short_req(req):
+    return f"bot {req[1]}" if req[0] == "bot" else f"execute {req[1]}"
+
+
 def _short(c):
     if c[0] == "ctx":
         return "set" + repr(c[1])
@@ -402,10 +536,24 @@ def _short(c):
 # ---------------------------------------------------------------------------------------------
 # cases
 
+# where and how a user step's turn leaves the flow on an actionable (bot / execute) step instead of feeding it back:
+# on the at-th actionable step of the turn ("any") or the at-th one that lies inside a called subflow ("sub"); by an
+# unexpected user intent (unknown or belonging to a later step of some flow), an unexpected bot intent, the failure of
+# the started action (execute steps only; else a user intent) or the first intent of another flow.
+_cut = st.fixed_dictionaries(
+    {
+        "at": st.sampled_from([0, 0, 1, 1, 2, 3]),
+        "where": st.sampled_from(["any", "sub", "sub"]),
+        "how": st.sampled_from(["user", "user", "bot", "failed", "failed", "start"]),
+        "j": st.integers(0, 5),
+    }
+)
+
 _choice = st.builds(
-    lambda k, i: {"k": k, "i": i},
+    lambda k, i, cut: {"k": k, "i": i, "cut": cut},
     st.sampled_from(["follow"] * 8 + ["start"] * 2 + ["unknown"]),
     st.integers(0, 2),
+    st.one_of(st.none(), st.none(), st.none(), st.none(), _cut),
 )
 
 
@@ -436,7 +584,7 @@ def _v(name):
     return {"var": name}
 
 
-def _core_programs():
+def _core_programs(with_nested=False):
     inc = lambda c: {"t": "set", "var": c, "expr": {"op": "+", "l": _v(c), "r": 1}}  # noqa: E731
     bot = lambda b: {"t": "bot", "intent": b}  # noqa: E731
     user = lambda u: {"t": "user", "intent": u}  # noqa: E731
@@ -482,9 +630,48 @@ def _core_programs():
     yield {"flows": [f0, f1], "subflows": [s0]}
     yield {"flows": [f2, f1], "subflows": [s0]}
     yield {"flows": [f1, f0, f2], "subflows": [s0]}
+    if not with_nested:
+        return
+    # two levels of subflows with bot, user and execute steps at both levels
+    s1 = {"name": "s1", "body": [bot("b2"), user("s1 u0"), {"t": "exec", "action": "act2", "params": {"p": _v("x")}, "result": "z"}, {"t": "do", "flow": "s0"}, bot("b3")]}
+    f3 = {
+        "name": "f3",
+        "intent": "f3 start",
+        "body": [
+            {"t": "set", "var": "x", "expr": 2},
+            bot("b0"),
+            {"t": "do", "flow": "s1"},
+            {"t": "if", "cond": {"op": ">", "l": _v("z"), "r": 1}, "then": [bot("b4")], "else": [{"t": "exec", "action": "act0", "params": {}, "result": None}]},
+            user("f3 u0"),
+            bot("b2"),
+        ],
+    }
+    yield {"flows": [f3, f1], "subflows": [s0, s1]}
+
+
+def _cut_cases():
+    """Core programs x (turn, actionable step of the turn, way of leaving): follow, leave on a bot / execute step of the
+    flow or of the subflow it called, come back to the flow (it starts again) and follow it to its end."""
+    f = {"k": "follow", "i": 0}
+    programs = list(_core_programs(with_nested=True))
+    for n_prog, program in enumerate(programs):
+        for turn in range(3):
+            for n_pos, (at, where) in enumerate(((0, "any"), (1, "any"), (2, "any"), (0, "sub"), (1, "sub"))):
+                for n_how, how in enumerate(("user", "bot", "failed", "start")):
+                    cut = {"at": at, "where": where, "how": how, "j": (turn + at + n_prog) % 6}
+                    yield {
+                        "program": program,
+                        "else_if": bool((turn + n_how) % 2),
+                        "main": {"choices": [f] * turn + [dict(f, cut=cut)] + [f] * 8, "results": [[3, 0], [2], [0], [1, 2, 4]][(at + n_how) % 4]},
+                        "other": {"choices": [f] * ((turn + 1) % 3) + [dict(f, cut=dict(cut, how="user"))] + [f] * 4, "results": [1, 3]},
+                        "leg2": (turn + n_pos + n_how) % 2 == 0,
+                        "allow_instant_end": not F13_OPEN,
+                        "allow_nested_wait": not F14_OPEN,
+                    }
 
 
 def enumerate_cases(tier):
+    yield from _cut_cases()
     follow = [{"k": "follow", "i": 0}] * 12
     leave = [{"k": "follow", "i": 0}] * 2 + [{"k": "start", "i": 0}] + [{"k": "follow", "i": 0}] * 3 + [{"k": "unknown", "i": 0}] + [{"k": "follow", "i": 0}] * 5
     for program in _core_programs():
@@ -593,9 +780,11 @@ def prop(case):
         labels.add("while-iter>=2")
     if any(lab.startswith("resume:old-flow-followed") for lab in other.labels):
         labels.add("other-history:resume")
+    if any(lab.startswith("restart-after-leave-on-action") for lab in other.labels):
+        labels.add("other-history:restart-after-leave-on-action")
     labels.add("leg2" if rt is not None else "leg1-only")
     labels.add("else-if-spelling" if case["else_if"] and "else if" in src else "plain-else")
-    nt = (n_if >= 1 and n_iter >= 1) or n_ret >= 1
+    nt = (n_if >= 1 and n_iter >= 1) or n_ret >= 1 or main.restarts >= 1
     view = {"source": src.split("\n"), "transcript": main.log[:40], "evaluations": len(main.evals)}
     counters = {
         "compute_next_steps_calls": len(main.evals) * 2 + len(other.evals) + 3,
